@@ -20,15 +20,19 @@
                                         trimming; the schema-driven optional-output trimming is switched off (sc = []);
                                         with it the statement is FALSE: C05_dce_batchnorm_refuted)
      sequences of these                C05_sequence
+     LiftConstantsToInitializersPass   C05_lift_constants_preserves       (full, all parameter settings)
+     TopologicalSortPass               C05_reorder_preserves              (any graph-wise permutation: the relation the
+                                        harness checks on the implementation's result; exact order = C12)
    Not proved in Coq (covered by the structural correspondence and the execution oracle only):
-     CommonSubexpressionEliminationPass (its key is not injective: C05_cse_key_refuted), LiftConstantsToInitializers,
-     OutputFix, LiftSubgraphInitializers, Add/RemoveInitializersFromInputs, Inline, TopologicalSort (relation
-     reorder_modelb checked), NameFix/ClearMetadata/ShapeInference/RemoveUnusedOpsets (frame-checked),
-     AddDefaultAttributes, RemoveUnusedFunctions.
+     CommonSubexpressionEliminationPass as a whole (only C05_cse_step_preserves_partial; its key is not injective:
+     C05_cse_key_refuted), OutputFix,
+     LiftSubgraphInitializers, Add/RemoveInitializersFromInputs, Inline, NameFix/ClearMetadata/ShapeInference/
+     RemoveUnusedOpsets (frame-checked: they may only touch what is outside the term language), AddDefaultAttributes,
+     RemoveUnusedFunctions.
    Checker-validity: C05_identity_elim_valid_refuted shows IdentityElimination does NOT keep "graph outputs
    are defined in their graph". *)
 From Coq Require Import ZArith NArith List Bool Lia.
-From IRV Require Import Base.Exn Gen.C05Gen C05.Model C05.Proofs C05.Proofs2 C05.Proofs3.
+From IRV Require Import Base.Exn Gen.C05Gen C05.Model C05.Proofs C05.Proofs2 C05.Proofs3 C05.Proofs4 C05.Proofs5 C05.Proofs6.
 Import ListNotations.
 Open Scope N_scope.
 
@@ -89,10 +93,12 @@ Theorem C05_dedup_preserves :
     (forall op attrs subs subs' ins k r, Forall2 (sub_le T) subs subs' -> interp op attrs subs ins k = Some r -> interp op attrs subs' ins k = Some r) ->
     (forall op attrs subs x, is_identity_op op = true -> interp op attrs subs [x] 1%nat = Some [x]) ->
     (forall op attrs subs ins k, interp op attrs subs (ins ++ [absent]) k = interp op attrs subs ins k) ->
-    forall size_limit order m, WF m -> NoOpFunc m ->
+    (* keyeq = tensor_eqb: DeduplicateInitializersPass; keyeq = tensor_hash_eqb: DeduplicateHashedInitializersPass;
+       any key works because a merge is only made after the exact comparison *)
+    forall keyeq size_limit order m, WF m -> NoOpFunc m ->
     forall env r, env_ok T (formal_of m) env -> computes absent tensor_val interp m env r ->
-                  computes absent tensor_val interp (dedup_inits size_limit order m) env r.
-Proof. intros T a tv i H1 H2 H3 sl order m HW HN. exact (pr_comp T a tv i _ _ (dedup_inits_pres T a tv i H1 H2 H3 sl order m HW HN)). Qed.
+                  computes absent tensor_val interp (dedup_inits keyeq size_limit order m) env r.
+Proof. intros T a tv i H1 H2 H3 ke sl order m HW HN. exact (pr_comp T a tv i _ _ (dedup_inits_pres T a tv i H1 H2 H3 ke sl order m HW HN)). Qed.
 Print Assumptions C05_dedup_preserves.
 
 Theorem C05_dce_preserves_partial :
@@ -107,6 +113,71 @@ Theorem C05_dce_preserves_partial :
                   computes absent tensor_val interp (dce [] unnamed opset_graphs fuel m) env r.
 Proof. intros T a tv i H1 H2 H3 u ops fuel m HW HN Hfr. exact (pr_comp T a tv i _ _ (dce_pres T a tv i H1 H2 H3 u ops fuel m HW HN Hfr)). Qed.
 Print Assumptions C05_dce_preserves_partial.
+
+
+(* ---- TopologicalSortPass (and any reordering): the relation the harness checks on the implementation's
+   output (reorder_modelb before after = true) implies the same results.  The exact order is property C12. *)
+Theorem C05_reorder_preserves :
+  forall (T : Type) (absent : T) tensor_val interp,
+    (forall op attrs subs subs' ins k r, Forall2 (sub_le T) subs subs' -> interp op attrs subs ins k = Some r -> interp op attrs subs' ins k = Some r) ->
+    (forall op attrs subs x, is_identity_op op = true -> interp op attrs subs [x] 1%nat = Some [x]) ->
+    (forall op attrs subs ins k, interp op attrs subs (ins ++ [absent]) k = interp op attrs subs ins k) ->
+    forall m m', WF m -> reorder_modelb m m' = true ->
+    forall env r, env_ok T (formal_of m) env -> computes absent tensor_val interp m env r -> computes absent tensor_val interp m' env r.
+Proof. intros T a tv i H1 H2 H3 m m' HW HR. apply (reorder_computes T a tv i H1 H2 H3 m m' HW). apply reorder_modelb_sound. exact HR. Qed.
+Print Assumptions C05_reorder_preserves.
+
+Theorem C05_reorder_signature :
+  forall m m', reorder_modelb m m' = true ->
+    g_ins (m_main m') = g_ins (m_main m) /\ g_outs (m_main m') = g_outs (m_main m) /\ g_inits (m_main m') = g_inits (m_main m).
+Proof. intros m m' H. apply reorder_modelb_sound in H. destruct H as [[A [B [_ C]]] _ _]. auto. Qed.
+Print Assumptions C05_reorder_signature.
+
+(* ---- LiftConstantsToInitializersPass (all parameter settings).  `other` is the table of numpy conversions of the
+   value_int(s)/float(s)/string(s) forms handed to the model (modelled, not verified); the hypothesis on Constant says
+   "Constant returns its attribute", i.e. the tensor the pass extracts.  ConstOK = schema of Constant (no inputs, one
+   output); FreshOK = `fresh` is above every identity of the model. *)
+Theorem C05_lift_constants_preserves :
+  forall (T : Type) (absent : T) tensor_val interp,
+    (forall op attrs subs subs' ins k r, Forall2 (sub_le T) subs subs' -> interp op attrs subs ins k = Some r -> interp op attrs subs' ins k = Some r) ->
+    (forall op attrs subs x, is_identity_op op = true -> interp op attrs subs [x] 1%nat = Some [x]) ->
+    (forall op attrs subs ins k, interp op attrs subs (ins ++ [absent]) k = interp op attrs subs ins k) ->
+    forall lift_all size_limit other,
+    (forall op k name a t subs, is_constant_op op = true -> lift_tensor lift_all size_limit other k name a = Some t ->
+                                interp op [(name, a)] subs [] 1%nat = Some [tensor_val t]) ->
+    forall fuel m fresh, WF m -> NoOpFunc m -> ConstOK m -> FreshOK m fresh ->
+    forall env r, env_ok T (formal_of m) env -> computes absent tensor_val interp m env r ->
+                  computes absent tensor_val interp (fst (lift_constants fuel lift_all size_limit other m fresh)) env r.
+Proof.
+  intros T a tv i H1 H2 H3 la sl other Hc fuel m fresh HW HN HC HF.
+  exact (pr_comp T a tv i _ _ (lift_constants_pres T a tv i H1 H2 H3 la sl other Hc fuel m fresh HW HN HC HF)).
+Qed.
+Print Assumptions C05_lift_constants_preserves.
+
+
+(* ---- CommonSubexpressionEliminationPass: ONE merge step (node `rem` removed, its values replaced by those of `keep`).
+   FULL statement (not proved): forall m, Valid m -> computes m env r -> computes (fst (cse size_limit m fresh)) env r.
+   It is FALSE for the code as it exists (C05_cse_key_refuted: the key identifies +0.0/-0.0 and NUL-padded strings).
+   Proved: a merge step preserves the results when the key is faithful on the two nodes' attributes and no value of
+   `rem` is a graph output.  Missing for the whole pass: the loop over the main graph (invariant: `seen` nodes stay in
+   the graph) and the graph-output path (output list rewriting + Identity insertion; see the findings
+   cse-graph-output-type-lost / cse-duplicate-graph-output-identity-names). *)
+Theorem C05_cse_step_preserves_partial :
+  forall (T : Type) (absent : T) tensor_val interp,
+    (forall op attrs subs subs' ins k r, Forall2 (sub_le T) subs subs' -> interp op attrs subs ins k = Some r -> interp op attrs subs' ins k = Some r) ->
+    (forall op attrs subs x, is_identity_op op = true -> interp op attrs subs [x] 1%nat = Some [x]) ->
+    (forall op attrs subs ins k, interp op attrs subs (ins ++ [absent]) k = interp op attrs subs ins k) ->
+    forall m rem keep fresh, WF m -> NoOpFunc m -> In rem (all_nodes m) -> In keep (all_nodes m) -> rem <> keep ->
+    cse_key_eqb keep rem = true ->
+    (forall a b, In a (n_attrs keep) -> In b (n_attrs rem) -> cse_attr_eqb a b = true -> a = b) ->
+    existsb (is_graph_output m) (n_outs rem) = false ->
+    forall env r, env_ok T (formal_of m) env -> computes absent tensor_val interp m env r ->
+                  computes absent tensor_val interp (fst (cse_replace m rem keep fresh)) env r.
+Proof.
+  intros T a tv i H1 H2 H3 m rem keep fresh HW HN Hr Hk Hne Hkey Hf Ho.
+  exact (pr_comp T a tv i _ _ (cse_step_pres T a tv i H1 H2 H3 m rem keep fresh HW HN Hr Hk Hne Hkey Hf Ho)).
+Qed.
+Print Assumptions C05_cse_step_preserves_partial.
 
 (* ---- composition: any sequence of the proved passes *)
 Theorem C05_sequence :
